@@ -110,7 +110,15 @@ func relayBackend(w http.ResponseWriter, r *http.Request) {
 		w.Header()["Content-Type"] = nil
 	}
 	status := 200
-	fmt.Sscanf(c.d(6), "%d", &status)
+	if strings.HasPrefix(c.d(6), "103+") {
+		// Early Hints before the final response
+		w.Header().Set("Link", "</style.css>; rel=preload")
+		w.WriteHeader(103)
+		w.Header().Del("Link")
+		fmt.Sscanf(c.d(6)[4:], "%d", &status)
+	} else {
+		fmt.Sscanf(c.d(6), "%d", &status)
+	}
 	if status == 301 {
 		w.Header().Set("Location", "/elsewhere?x=1")
 	}
@@ -154,6 +162,7 @@ func relayBackend(w http.ResponseWriter, r *http.Request) {
 // ---------------------------------------------------------------- client side of a relay case
 
 type respSeen struct {
+	Interim []int  `json:"interim"` // 1xx responses received before the final one (100 Continue excluded)
 	Status  int    `json:"status"`
 	Hdrs    []hv   `json:"hdrs"`
 	Body    string `json:"body"`
@@ -183,6 +192,10 @@ func buildRequest(c *relayCase, key, targetPrefix string) []byte {
 		b.WriteString("If-None-Match: \"abc\"\r\nRange: bytes=0-10\r\n")
 	case "xff":
 		b.WriteString("X-Forwarded-For: 203.0.113.9\r\nX-Forwarded-Proto: https\r\nVia: 1.1 edge\r\n")
+	case "expect_100":
+		if c.d(5) != "none" {
+			b.WriteString("Expect: 100-continue\r\n")
+		}
 	}
 	kind := c.d(5)
 	body := bodyBytes(kind, c.seed)
@@ -222,12 +235,39 @@ func relayExchange(c *relayCase, which, addr, prefix string) (*respSeen, *exchan
 	}
 	defer conn.c.Close()
 	conn.c.SetDeadline(time.Now().Add(20 * time.Second))
-	if _, err := conn.c.Write(buildRequest(c, key, prefix)); err != nil {
+	raw := buildRequest(c, key, prefix)
+	expect := c.d(4) == "expect_100" && c.d(5) != "none"
+	interim := []int{}
+	var resp *http.Response
+	if expect {
+		// send the header block, wait for "100 Continue" (at most 1.5 s), then the body
+		i := bytes.Index(raw, []byte("\r\n\r\n")) + 4
+		if _, err := conn.c.Write(raw[:i]); err != nil {
+			return nil, ex, "write: " + err.Error()
+		}
+		conn.c.SetReadDeadline(time.Now().Add(1500 * time.Millisecond))
+		r1, err := http.ReadResponse(conn.br, &http.Request{Method: c.d(1)})
+		conn.c.SetDeadline(time.Now().Add(20 * time.Second))
+		if err == nil && r1.StatusCode != 100 {
+			resp = r1 // the server answered without asking for the body
+		}
+		if resp == nil || (resp.StatusCode >= 100 && resp.StatusCode < 200) {
+			if _, err := conn.c.Write(raw[i:]); err != nil {
+				return nil, ex, "write body: " + err.Error()
+			}
+		}
+	} else if _, err := conn.c.Write(raw); err != nil {
 		return nil, ex, "write: " + err.Error()
 	}
-	resp, err := http.ReadResponse(conn.br, &http.Request{Method: c.d(1)})
-	if err != nil {
-		return nil, ex, "read: " + err.Error()
+	for resp == nil || (resp.StatusCode >= 100 && resp.StatusCode < 200) {
+		if resp != nil && resp.StatusCode != 100 {
+			interim = append(interim, resp.StatusCode)
+		}
+		r, err := http.ReadResponse(conn.br, &http.Request{Method: c.d(1)})
+		if err != nil {
+			return nil, ex, "read: " + err.Error()
+		}
+		resp = r
 	}
 	framing := "none"
 	if len(resp.TransferEncoding) > 0 {
@@ -259,7 +299,7 @@ func relayExchange(c *relayCase, which, addr, prefix string) (*respSeen, *exchan
 		body, _ = io.ReadAll(resp.Body)
 	}
 	resp.Body.Close()
-	return &respSeen{Status: resp.StatusCode, Hdrs: headerSet(resp.Header, ""), Body: digest(body), Framing: framing}, ex, ""
+	return &respSeen{Interim: interim, Status: resp.StatusCode, Hdrs: headerSet(resp.Header, ""), Body: digest(body), Framing: framing}, ex, ""
 }
 
 type relayEnv struct {
@@ -332,7 +372,7 @@ func runRelay(c *relayCase) map[string]any {
 		if r != nil {
 			m["resp"] = r
 		} else {
-			m["resp"] = &respSeen{Hdrs: []hv{}}
+			m["resp"] = &respSeen{Hdrs: []hv{}, Interim: []int{}}
 		}
 		return m
 	}
